@@ -318,7 +318,10 @@ func runC13(c *core.Ctx) {
 			streamDone.Wait()
 		}
 		if atomic.LoadInt32(&hung) == 1 {
-			if cls, d := persistentHangClass(hungDump.Load().(string)); cls == "api-waits-for-reader-parked-in-send" {
+			if cls, d := persistentHangClass(hungDump.Load().(string)); cls == "lock-leaked" || cls == "deadlock:lock-order" || cls == "lock-holder-busy" {
+				c.Violate("close-never-completes", fmt.Sprintf("cycle %d [%s watches=%d closers=%d buffer=%d]: a Close call did not return (%s): the reader goroutine cannot finish, so it, its buffer and the channels are never released", i, kind, nw, closers, buf, cls), dumpExcerpt(d))
+				return
+			} else if cls == "api-waits-for-reader-parked-in-send" {
 				c.Violate("close-waits-for-a-reader-that-never-exits", fmt.Sprintf("cycle %d [%s watches=%d closers=%d buffer=%d]: Close waits for the reader goroutine, which is parked in a send nobody receives and does not react to Close: the goroutine, its buffer and the channels are never released", i, kind, nw, closers, buf), dumpExcerpt(d))
 				return
 			}
